@@ -54,5 +54,51 @@ PROPS["C14"] = {
     "technique": "Lean 4 proof (fold invariants, well-founded recursion via fuel) + differential check against the Go functions",
 }
 
+PROPS["C18"] = {
+    "lean": ["MysyncProofs.C18"],
+    "go": [("internal/app", "^TestVerifC18$")],
+    "level": "proof",
+    "components": ["MysyncModel/App/DiskGuard.lean (repairReadOnlyOnMaster: tally loop, replica counters, decision, low_space write)",
+                   "MysyncModel/NodeState.lean (DiskState.Usage comparisons decided exactly)"],
+    "trusted": ["T4 fake MySQL statement semantics for SET GLOBAL read_only/super_read_only",
+                "T8 float64 usage 100*Used/Total compared exactly for integer percentages (harness reports Total=100)"],
+    "rule": "master usage in {none,80,90,91,94,95,96} (thresholds 90/95) x 0-1 (thorough 0-2) replicas over {none,80,92,97} x counted/not x wait count 1-2 x current mode {rw, ro+super, ro} x keep-super switch exhaustively; random cells with up to 3 replicas, stale is_master flag, missing semi-sync state, semi-sync off, failing statements. distinct = distinct cell; non-trivial = a statement is expected or replicas are reported",
+    "assumptions": ["thresholds are integer percentages in the harness"],
+    "min_lines": 3000,
+    "level_text": "Theorems over the model of repairReadOnlyOnMaster for all DCS views (any number of hosts, any map order): read-only iff master critical or too many running semi-sync replicas critical; statement kind and skip condition; writable only if read-only, nothing critical/grey and a normal replica exists; grey zone untouched; low_space follows; order independence of the tally. Correspondence: the REAL function runs against the fake master for every cell; statements and the low_space write are compared with the model's decision.",
+    "level_note": "Trusted: Lean kernel; fake server semantics for the three read_only statements; harness/replay.",
+    "technique": "Lean 4 proof over a decision model + exhaustive/random differential check of the real function against fake servers",
+}
+
+PROPS["C17"] = {
+    "lean": ["MysyncProofs.C17"],
+    "go": [("internal/app", "^TestVerifC17$")],
+    "level": "proof",
+    "components": ["MysyncModel/App/Offline.lean (repairSlaveOfflineMode, repairMasterOfflineMode, the three offline filters, getAvailabilityZone, the pass accumulator, the broken-replica rate limiter)"],
+    "trusted": ["T4 fake MySQL semantics for offline_mode and startup-time statements", "T8 lags/durations in whole seconds; floor(100*x/total) modelled by Int division"],
+    "rule": "random scenarios over 6 replicas in 3 zones x 14 percentages x 4 separators x 8 lag values around both thresholds x offline/online x broken x 5 resetup-status cases x 4 last-shutdown ages x failing statements; half call the inner function host by host with one shared pending map (exact action comparison), half run the whole real loop in Go map order (order-free monitors: eligibility, exact per-zone count allowed by the accumulating cap). distinct = distinct record; non-trivial = at least one action",
+    "assumptions": ["virtual time does not advance inside one pass (fake servers answer instantly)"],
+    "min_lines": 2000,
+    "level_text": "Theorems over the model for all cluster states, all visiting orders, all percentages/separators: offline only if conditions + filter; cap respected incl. same-pass accumulation (induction over the pass); pct<=0 never, pct>=100 always; online only if; hysteresis; unknown lag untouched; broken rate limit; master kept online unless marked. Correspondence: the REAL repairSlaveOfflineMode/repairOfflineMode against fake servers and DCS.",
+    "level_note": "Trusted: Lean kernel; fake server/DCS semantics; harness/replay.",
+    "technique": "Lean 4 proof (fold invariant over the pass) + differential check of the real functions against fakes",
+}
+
+PROPS["C16"] = {
+    "lean": ["MysyncProofs.C16"],
+    "go": [("internal/app", "^TestVerifC16")],
+    "level": "proof",
+    "components": ["MysyncModel/App/Cascade.lean (findBestStreamFrom with explicit nil-dereference outcomes, repairCascadeNode as a decision over its call results)",
+                   "MysyncModel/NodeState.lean (countHANodes, countRunningHASlaves, countAliveHASlavesWithinNodes, getDubiousHAHosts)",
+                   "MysyncModel/GtidParse.lean (text form of GTID sets)"],
+    "trusted": ["T4 fake MySQL semantics for STOP/START REPLICA, CHANGE REPLICATION SOURCE, SHOW REPLICA STATUS", "T6 GTID text parser modelled"],
+    "rule": "findBestStreamFrom: ALL 343 stream_from maps over three cascade hosts with values in {absent, master, HA replica, c1, c2, c3, unregistered} x self x 12 (thorough 60) random health patterns (6 kinds per ancestor), plus malformed maps/cluster states; repairCascadeNode: random scenarios over replication state (running/stopped/temp error/permanent error/unknown) x current upstream x configured source incl. self and empty x ancestor health x GTID relation (behind/equal/ahead/diverged) x failing stop/change/uuid/status calls x timer. distinct = distinct record; non-trivial = configured source is set and is not the master (bsf) / some action taken (repair)",
+    "assumptions": ["a stream_from that names an unregistered host is a nil dereference in the code (reported under C20); theorems state the exact condition"],
+    "min_lines": 10000,
+    "level_text": "Theorems over the model for all finite topology maps incl. cycles and self-references: termination (fuel never runs out, pigeonhole over the map's values), never self, configured source when healthy or already streamed, nearest healthy ancestor else master, no panic when every source is registered; guarded move (fresh GTID read precedes, contained in candidate's snapshot, never when ahead/split-brained, never to itself); HA counters ignore cascade hosts. Correspondence: REAL findBestStreamFrom on all maps and REAL repairCascadeNode against fake servers.",
+    "level_note": "Trusted: Lean kernel; fake server semantics; GTID parser model; harness/replay.",
+    "technique": "Lean 4 proof (well-founded recursion via fuel + pigeonhole; decision-tree case analysis) + exhaustive differential check of the real functions",
+}
+
 _todo = "machinery for this property is not built yet in this round; planned per DESIGN.md §7/§10 (no claim is made until its check exists)"
 NOT_APPLICABLE = {("C%02d" % i): _todo for i in range(1, 21)}
